@@ -135,8 +135,10 @@ class Ctx(object):
     # ----- Hypothesis glue
     def hyp(self, strategy, body, max_examples, shrink_budget=120):
         """Run body(case) over generated cases; on Violation, shrink and record (no raise)."""
+        import warnings
         import hypothesis
         from hypothesis import given, settings, seed, HealthCheck, Phase
+        warnings.simplefilter("ignore")
         ctx = self
         state = {"failed": False, "shrinks": 0, "best": None}
 
